@@ -38,7 +38,9 @@ KINDS = {
              ("bempp_cl/api/fmm/fmm_assembler.py", "make_default_scalar", "Assemble"),
              ("bempp_cl/api/fmm/fmm_assembler.py", "make_scalar_hypersingular", "Assemble"),
              ("bempp_cl/api/fmm/fmm_assembler.py", "make_maxwell_electric_field_boundary", "Assemble"),
-             ("bempp_cl/api/fmm/fmm_assembler.py", "make_maxwell_magnetic_field_boundary", "Assemble")],
+             ("bempp_cl/api/fmm/fmm_assembler.py", "make_maxwell_magnetic_field_boundary", "Assemble"),
+             # the singular part of an FMM operator is a separate operator on the same parameter object
+             ("bempp_cl/core/singular_assembler.py", "assemble_singular_part", "Assemble")],
     "KFmmPotential": [("bempp_cl/api/fmm/fmm_assembler.py", "FmmPotentialAssembler.__init__", "Create"),
                       ("bempp_cl/api/fmm/fmm_assembler.py", "create_potential_evaluator", "Create"),
                       ("bempp_cl/api/fmm/fmm_assembler.py", "make_default_scalar_potential", "Create"),
